@@ -202,6 +202,40 @@ def r5(ctx, prog):
     ctx.stats['deferred_tasks'] = n
 
 
+def r7(ctx, prog):
+    ctx.rule('C08.R7', 'A7 live dispatch in Cabinet::foreach ("a token resolves to the object until freed and to nothing afterwards", also while iterating with removal): '
+             'the callback receives the pointer read from the live cell in the iteration that found the cell occupied (id != 0) — not a pointer copied out earlier, which a '
+             'previous callback may have freed or replaced', floor=1)
+    fs = [f for f in prog.funcs.values() if f.name.startswith('tbox::cabinet::Cabinet<') and f.short == 'foreach' and not f.parent_usr]
+    if not fs:
+        raise AnalysisBroken('no instantiation of Cabinet::foreach in the analysed units')
+    f = sorted(fs, key=lambda g: g.name)[0]
+    pname = f.params[0]['n'] if f.params else 'func'
+    invs = [st for st in f.stmts if st and st['k'] in q.CALL_KINDS and 'obj' in st and f.path(st['obj']) == pname] + \
+           [st for st in f.stmts if st and st['k'] == 'CallExpr' and f.path(st.get('calleeexpr')) == pname]
+    if not invs:
+        raise AnalysisBroken('Cabinet::foreach: invocation of the callback not found')
+    for iv in invs:
+        a = iv['args'][0] if iv.get('args') else None
+        ap = f.path(a) if a is not None else '?'
+        root = ap.split('.')[0].rstrip('[]')
+        # the argument's root must be an element of the live cells_: a range variable over cells_, or cells_[...]
+        live = False
+        for l in [st for st in f.stmts if st and st['k'] == 'CXXForRangeStmt']:
+            if (f.field_of(l['range']) or '').endswith('::cells_') and iv['i'] in set(f.walk(l['body'])):
+                rv = [d for st in f.stmts if st and st['k'] == 'DeclStmt' for d in st['decls'] if d.get('d') == l.get('lvd')]
+                if rv and rv[0].get('n') == root:
+                    live = True
+        if ap.startswith('cells_[') or ap.startswith('cells_.at('):
+            live = True
+        elem = ap[:-len('.obj_ptr')] if ap.endswith('.obj_ptr') else root
+        occ = any(q.edge_holds(f, c, k, elem + '.id', '!=', '0') for c, k, b in f.cfg.controlling_branches(q.pt(f, iv))) if live else False
+        ctx.ob('C08.R7', 'Cabinet::foreach|live-cell', live and occ and ap.endswith('obj_ptr'),
+               'callback receives %s of the live cell under %s.id != 0' % (ap, root) if live and occ else
+               'the callback is handed %s, which does not come from the live cell being visited: an entry freed or updated by an earlier callback of the same walk is '
+               'still delivered with its stale pointer' % ap, where=f.loc(iv['i']))
+
+
 def r6(ctx, prog):
     ctx.rule('C08.R6', 'A9d (whole program): a token look-up may answer "nothing" — every pointer obtained from Cabinet::at/free/operator[] is '
                        'null-tested before it is dereferenced, also inside deferred tasks that capture it', floor=25)
@@ -255,4 +289,5 @@ def run(ctx):
     ctx.guard(r4, ctx, prog)
     ctx.guard(r5, ctx, prog)
     ctx.guard(r6, ctx, prog)
+    ctx.guard(r7, ctx, prog)
     return prog
